@@ -20,7 +20,7 @@ RULE = (
     "Inputs x faults: reference encodings of Hypothesis corpus values x (a) EVERY truncation point, (b) single-byte "
     "corruption of every tag / length position (positions from the spec record parser), (c) wire-type substitution on "
     "each field kind (payload re-shaped so the record stays well-formed; inserted before or after the genuine "
-    "occurrence), (d) inserted field-number-0 and wire-type-6/7 tags, (e) group start/end markers around known and "
+    "occurrence; decoded through parse / FromString / load / load(size) / load(SIZE_DELIMITED)), (d) inserted field-number-0 and wire-type-6/7 tags, (e) group start/end markers around known and "
     "unknown field numbers with known field numbers inside, (e2) a well-formed LEN record whose sub-message / packed "
     "payload is cut in the middle of an inner record / element; plus (f) Hypothesis random byte strings and (thorough "
     "tier) an atheris / libFuzzer coverage-guided campaign per shard on Message.parse (empty and seeded corpus), the "
@@ -121,10 +121,14 @@ def targets(ctx):
         except Exception:  # noqa: BLE001
             return False
 
-    def decode(name, data):
-        """-> ('ok', msg) | ('raise', exc)"""
+    def decode(name, data, entry="parse"):
+        """-> ('ok', msg) | ('raise', exc); entry in {parse, FromString, load, load_size, load_delimited}"""
+        from .c08 import decode_via
+
         try:
-            return "ok", c.bp(name)().parse(data)
+            if entry == "FromString":
+                return "ok", c.bp(name).FromString(data)
+            return "ok", decode_via(c.bp(name)(), data, entry)
         except RecursionError as e:
             return "raise", e
         except Exception as e:  # noqa: BLE001
@@ -224,7 +228,9 @@ def targets(ctx):
             if kind == "field0":
                 wt = fault["wt"] % 6 if fault["wt"] % 6 not in (3, 4) else 0
                 payload = {0: 1, 1: b"\x00" * 8, 2: b"ab", 5: b"\x00" * 4}[wt]
-                rec = wire.tag(0, wt) + {0: wire.enc_varint(1), 1: payload, 2: b"\x02ab", 5: payload}[wt] if wt != 0 else wire.tag(0, 0) + b"\x01"
+                body = {0: wire.enc_varint(1), 1: payload, 2: b"\x02ab", 5: payload}[wt]
+                # the tag of field number 0, minimal or written as a longer-than-necessary varint (80 00, 82 80 00 ...)
+                rec = wire.tag(0, wt, pad_to=[0, 2, 3, 5][fault.get("tag_pad", 0) % 4]) + body
             else:
                 n = fault["number"]
                 rec = wire.tag(n, 6 + fault["wt"] % 2)
@@ -262,9 +268,10 @@ def targets(ctx):
                     return Eval([], discard="reference does not treat this mismatch as an unknown field")
             except Exception:  # noqa: BLE001
                 return Eval([], discard="reference rejects this mismatch")
-            status, res = decode(name, bad)
+            entry = ["parse", "FromString", "load", "load_size", "load_delimited"][fault.get("entry", 0) % 5]
+            status, res = decode(name, bad, entry)
             tally(name, bad, status)
-            where = f"{fi.kind}|got_wt{wt}|{'after' if fault['after'] and genuine else ('before' if genuine else 'absent')}"
+            where = f"{fi.kind}|got_wt{wt}|{'after' if fault['after'] and genuine else ('before' if genuine else 'absent')}|{entry}"
             if status != "ok":
                 add("mismatch_raises", f"{where}|{type(res).__name__}", f"{res}; input={bad.hex()[:160]}")
             else:
@@ -337,9 +344,12 @@ def targets(ctx):
                     return Eval([], discard="reference lets this group alter known fields")
             except Exception:  # noqa: BLE001
                 return Eval([], discard="reference rejects this group")
-            status, res = decode(name, bad)
+            entry = ["parse", "FromString", "load", "load_size", "load_delimited"][fault.get("entry", 0) % 5]
+            status, res = decode(name, bad, entry)
             tally(name, bad, status)
-            where = "known_number" if known_group else "unknown_number"
+            where = ("known_number" if known_group else "unknown_number") + "|" + entry
+            if status != "ok":
+                add("group_raises", f"{where}|{type(res).__name__}", f"{res}; input={bad.hex()[:160]}")
             if status == "ok":
                 for cl, w2, d in validity(name, bad, status, res, "group"):
                     add(cl, f"{where}|{w2}", d)
@@ -372,11 +382,11 @@ def targets(ctx):
 
     fault = st.one_of(
         st.fixed_dictionaries({"kind": st.just("corrupt"), "pos": st.integers(0, 200), "byte": st.integers(0, 255)}),
-        st.fixed_dictionaries({"kind": st.just("field0"), "wt": st.integers(0, 5), "pos": st.integers(0, 20)}),
+        st.fixed_dictionaries({"kind": st.just("field0"), "wt": st.integers(0, 5), "pos": st.integers(0, 20), "tag_pad": st.integers(0, 3)}),
         st.fixed_dictionaries({"kind": st.just("badwt"), "wt": st.integers(0, 1), "number": st.sampled_from([1, 2, 3, 16, 9999]), "pos": st.integers(0, 20)}),
-        st.fixed_dictionaries({"kind": st.just("mismatch"), "field": st.integers(0, 40), "wt": st.integers(0, 3), "v": st.integers(0, 999), "after": st.booleans(), "pos": st.integers(0, 20)}),
-        st.fixed_dictionaries({"kind": st.just("mismatch"), "field": st.integers(0, 40), "wt": st.integers(0, 3), "v": st.integers(0, 999), "after": st.booleans(), "pos": st.integers(0, 20)}),
-        st.fixed_dictionaries({"kind": st.just("group"), "field": st.integers(0, 40), "known_number": st.booleans(), "n_inner": st.integers(0, 5), "pos": st.integers(0, 20)}),
+        st.fixed_dictionaries({"kind": st.just("mismatch"), "field": st.integers(0, 40), "wt": st.integers(0, 3), "v": st.integers(0, 999), "after": st.booleans(), "pos": st.integers(0, 20), "entry": st.integers(0, 4)}),
+        st.fixed_dictionaries({"kind": st.just("mismatch"), "field": st.integers(0, 40), "wt": st.integers(0, 3), "v": st.integers(0, 999), "after": st.booleans(), "pos": st.integers(0, 20), "entry": st.integers(0, 4)}),
+        st.fixed_dictionaries({"kind": st.just("group"), "field": st.integers(0, 40), "known_number": st.booleans(), "n_inner": st.integers(0, 5), "pos": st.integers(0, 20), "entry": st.integers(0, 4)}),
         st.fixed_dictionaries({"kind": st.just("inner_truncation"), "field": st.integers(0, 40), "pos": st.integers(0, 200)}),
     )
 
